@@ -111,6 +111,9 @@ var rR9 = RuleRef{Name: "R9", Doc: "key/argument identity: the key operand of ev
 						// stored value operand
 						nVal++
 						good, why := identitySlice(args[2], false)
+						if nb := nilBaseAppend(args[2]); good && nb != "" {
+							good, why = false, nb
+						}
 						c.Add("R9", fnName(fn), name("value stored by "+what), ci.Pos(), good, "stored value "+why)
 					}
 				} else if cf == setTTL || cf == delTTL || cf == checkTTL {
@@ -136,6 +139,9 @@ var rR9 = RuleRef{Name: "R9", Doc: "key/argument identity: the key operand of ev
 							}
 							nVal++
 							good, why := identitySlice(args[j], false)
+							if nb := nilBaseAppend(args[j]); good && nb != "" {
+								good, why = false, nb
+							}
 							c.Add("R9", fnName(fn), name("operand of "+cf.Name()), ci.Pos(), good, "member/field/value operand "+why)
 						}
 					}
